@@ -281,7 +281,7 @@ func ruleC05(c *Check) {
 			n++
 			if e.Op == "SendCoinsFromAccountToModule" {
 				b, ok := e.From.Match("(.RequestContext.Consumer (res 0 (" + gContext.Name + " $ID)))")
-				fromQueue := ok && b["$ID"].ContainsOp("types.GetNewRequestBatchSubspace")
+				fromQueue := ok && c.P.scansFamily(b["$ID"], "0x10")
 				c.req(fromQueue, "C05.7", effConstruct("EndBlocker", e), e.Pos, "payer "+shortTerm(e.From)+" is the consumer of the context dequeued from the new-batch queue")
 			} else {
 				c.req(isConstTerm(e.From), "C05.7", effConstruct("EndBlocker", e), e.Pos, "debits module account "+shortTerm(e.From))
